@@ -158,12 +158,12 @@ func buildAlphabet(r *hx.Run) *alphabet {
 		{"upper-scheme", "HTTP://h/a.crl"},
 		{"query", "http://h/a.crl?x"},
 		{"dotdot", "../../../../x"},
-		{"empty", ""},
+		{"nul", "http://h/a.crl\x00"},
 		{"trailing-slash", "http://h/a.crl/"},
+		{"empty", ""},
 		// DESIGN's "/abs/x": an absolute path that lands inside the observed scratch area
 		{"abs", filepath.Join(a.absTarget, "x")},
 		{"long10000", long},
-		{"nul", "http://h/a.crl\x00"},
 	}
 	// RSA (PKCS#1 v1.5) signatures are deterministic: with the cached key the DER
 	// bytes, hence the truncation/bit-flip space and its histogram, are the same on every run.
@@ -187,6 +187,10 @@ func buildAlphabet(r *hx.Run) *alphabet {
 		{Name: "base-fresh+delta-expired", B: &corecrl.Bundle{BaseCRL: base(40, tFresh), DeltaCRL: delta(40, tExpired)}, DeltaExpired: true},
 		{Name: "base-expired+delta-fresh", B: &corecrl.Bundle{BaseCRL: base(50, tExpired), DeltaCRL: delta(50, tFresh)}, BaseExpired: true},
 		{Name: "base-no-nextupdate", B: &corecrl.Bundle{BaseCRL: noNext}, NoNextUpdate: true},
+		// twins: bundles that agree with another bundle in every field a shortcut might compare (issuer,
+		// CRL number, thisUpdate, nextUpdate) and differ only in content - "last stored" means these bytes
+		{Name: "base-fresh-twin(same-issuer-number-dates,other-entries)", B: &corecrl.Bundle{BaseCRL: pki.CRL(a.issuer, 10, tThis, tFresh, serials(11), 0)}},
+		{Name: "base+delta-fresh-twin(same-base,delta-same-number-other-entries)", B: &corecrl.Bundle{BaseCRL: base(20, tFresh), DeltaCRL: pki.CRL(a.issuer, 21, tThis, tFresh, serials(23), 20)}},
 	}
 	a.foreign = bundleSpec{Name: "foreign-base+delta-fresh", B: &corecrl.Bundle{BaseCRL: base(70, tFresh), DeltaCRL: delta(70, tFresh)}}
 	plus := a.now.Add(time.Hour + time.Minute).Truncate(time.Second)
@@ -211,15 +215,15 @@ func buildAlphabet(r *hx.Run) *alphabet {
 		seen["u"+u.URL] = true
 	}
 	for _, b := range append(append([]bundleSpec{a.foreign}, a.bundles...), a.boundary...) {
-		for _, c := range []*x509.RevocationList{b.B.BaseCRL, b.B.DeltaCRL} {
-			if c == nil {
-				continue
-			}
-			if seen["c"+string(c.Raw)] {
-				r.Infra("duplicate CRL encoding in the alphabet: %s", b.Name)
-			}
-			seen["c"+string(c.Raw)] = true
+		// bundles must be pairwise distinct as (base bytes, delta bytes); a twin may share its base with another bundle
+		k := "c" + string(b.B.BaseCRL.Raw) + "|"
+		if b.B.DeltaCRL != nil {
+			k += string(b.B.DeltaCRL.Raw)
 		}
+		if seen[k] {
+			r.Infra("duplicate bundle encoding in the alphabet: %s", b.Name)
+		}
+		seen[k] = true
 	}
 	return a
 }
@@ -686,9 +690,10 @@ func report(r *hx.Run, vs []viol, c any) {
 }
 
 func explore(r *hx.Run, a *alphabet) {
-	nURL, depth := len(a.urls), 3
+	// quick: the first 7 URLs (plain, upper-case scheme, query, ../ traversal, NUL, trailing slash, empty); thorough: all 9, one level deeper
+	nURL, depth := 7, 3
 	if r.Thorough() {
-		depth = 4
+		nURL, depth = len(a.urls), 4
 	}
 	var ops []op
 	for u := 0; u < nURL; u++ {
@@ -1173,7 +1178,11 @@ func main() {
 	// non-vacuity: every URL returned every fresh bundle faithfully at least once;
 	// expired entries were seen as misses; the unmodified file was read back
 	// (only when nothing was violated: a violation explains lost controls and must decide the exit code)
-	for _, u := range a.urls {
+	ctlURLs := a.urls
+	if !r.Thorough() {
+		ctlURLs = a.urls[:7] // the quick history alphabet
+	}
+	for _, u := range ctlURLs {
 		for _, b := range []string{"base-fresh", "base+delta-fresh"} {
 			if _, ok := controls.Load(u.Name + "|" + b); !ok && r.Violations() == 0 {
 				r.Infra("positive control failed: bundle %s stored under URL %q was never returned", b, u.Name)
